@@ -42,7 +42,10 @@ def get_go_type_from_attributes(molecule, prefix, **kwargs):
     """
     for node in molecule.nodes:
         attrs = molecule.nodes[node]
-        if attributes_match(attrs, kwargs) and attrs['atype'].startswith(prefix):
+        # The type of a Go virtual site is "<prefix>_<resid>"; matching the bare
+        # prefix also matches ordinary bead types when the prefix (the molecule
+        # name) happens to start like one (e.g. "P").
+        if attributes_match(attrs, kwargs) and attrs['atype'].startswith(prefix + '_'):
             yield attrs['atype']
     else:
         resid = kwargs['resid']
